@@ -312,4 +312,131 @@ theorem C04_no_overread (cfg : Cfg) (hb : 1 ≤ cfg.bufsize) (body : Bytes) (fra
     (run cfg (init body frag none) ops).2.off ≤ L :=
   C05.C05_never_overreads cfg hb body frag none ops L hL
 
+
+/-! ### parts sharing a name arrive as a list in wire order -/
+
+def lookupD {α : Type} (k : Bytes) : List (Bytes × List α) → List α
+  | [] => []
+  | (k', vs) :: t => if k' = k then vs else lookupD k t
+
+theorem lookupD_paramAdd {α : Type} (ps : List (Bytes × List α)) (k k' : Bytes) (v : α) :
+    lookupD k (paramAdd ps k' v) = if k' = k then lookupD k ps ++ [v] else lookupD k ps := by
+  induction ps with
+  | nil =>
+    by_cases h : k' = k <;> simp [paramAdd, lookupD, h]
+  | cons p t ih =>
+    obtain ⟨k₀, vs⟩ := p
+    simp only [paramAdd]
+    by_cases h0 : k₀ = k'
+    · subst h0
+      by_cases h : k₀ = k <;> simp [lookupD, h]
+    · simp only [h0, if_false, lookupD]
+      by_cases h1 : k₀ = k
+      · simp only [h1, if_true]
+        have : ¬ k' = k := fun h => h0 (h1.trans h.symm)
+        simp [this]
+      · simp only [h1, if_false]; exact ih
+
+theorem lookupD_foldl {α : Type} (named : List (Bytes × α)) (acc : List (Bytes × List α)) (k : Bytes) :
+    lookupD k (named.foldl (fun ps kv => paramAdd ps kv.1 kv.2) acc)
+      = lookupD k acc ++ (named.filter (fun kv => kv.1 = k)).map (·.2) := by
+  induction named generalizing acc with
+  | nil => simp
+  | cons kv t ih =>
+    simp only [List.foldl_cons]
+    rw [ih, lookupD_paramAdd]
+    by_cases h : kv.1 = k <;> simp [List.filter_cons, h]
+
+/-- **C04, same-name parts.**  In the parameter dict that `process_multipart_form_data` (and
+    `_old_process_multipart`) builds, the values stored under a name are exactly the values of the parts
+    carrying that name, in wire order — for every list of parts. -/
+theorem C04_same_name_wire_order {α : Type} (named : List (Bytes × α)) (k : Bytes) :
+    lookupD k (assemble named) = (named.filter (fun kv => kv.1 = k)).map (·.2) := by
+  unfold assemble
+  rw [lookupD_foldl]; simp [lookupD]
+
+/-- keys of the parameter dict are distinct (a dict), so `lookupD` reads the only entry -/
+theorem paramAdd_keys {α : Type} (ps : List (Bytes × List α)) (k : Bytes) (v : α)
+    (h : (ps.map (·.1)).Nodup) : ((paramAdd ps k v).map (·.1)).Nodup := by
+  induction ps with
+  | nil => simp [paramAdd]
+  | cons p t ih =>
+    obtain ⟨k₀, vs⟩ := p
+    simp only [List.map_cons, List.nodup_cons] at h
+    simp only [paramAdd]
+    by_cases h0 : k₀ = k
+    · simp only [h0, if_true, List.map_cons, List.nodup_cons]
+      rw [← h0]; exact h
+    · simp only [h0, if_false, List.map_cons, List.nodup_cons]
+      refine ⟨?_, ih h.2⟩
+      intro hm
+      have : ∀ (l : List (Bytes × List α)), k₀ ∈ (paramAdd l k v).map (·.1) → k₀ ∈ l.map (·.1) := by
+        intro l
+        induction l with
+        | nil => simp [paramAdd]; exact fun h => absurd h h0
+        | cons q r ihr =>
+          obtain ⟨kq, vq⟩ := q
+          simp only [paramAdd]
+          by_cases hq : kq = k
+          · simp [hq]
+          · simp only [hq, if_false, List.map_cons, List.mem_cons]
+            rintro (h | h)
+            · left; exact h
+            · right; exact ihr h
+      exact h.1 (this t hm)
+
+
+/-! ### a body without any marker line: no parts -/
+
+theorem findFirst_none (bnd : Bytes) : ∀ (ls : List Bytes) (t : Bytes) (d : Bool) (k : Nat),
+    (∀ l ∈ ls, IsLine l ∧ strip l ≠ bnd) → hasLF t = false → strip t ≠ bnd →
+    findFirst bnd (ls.length + 2 + k) ⟨ls.flatten ++ t, d⟩ = none := by
+  intro ls
+  induction ls with
+  | nil =>
+    intro t d k _ ht hs
+    have hf : ([] : List Bytes).length + 2 + k = (k + 1) + 1 := by simp; omega
+    rw [hf]
+    cases t with
+    | nil => simp [findFirst, Src.readline, takeLine]
+    | cons b bs =>
+      have hrl : Src.readline ⟨b :: bs, d⟩ = (b :: bs, ⟨[], d || true⟩) := by
+        simp [Src.readline, takeLine_noLF _ ht, ht]
+      simp only [List.flatten_nil, List.nil_append, findFirst, hrl, List.isEmpty_cons, Bool.false_eq_true,
+        if_false, hs]
+      simp [Src.readline, takeLine]
+  | cons l ls ih =>
+    intro t d k h ht hs
+    obtain ⟨hl, hsl⟩ := h l (by simp)
+    have hf : (l :: ls).length + 2 + k = (ls.length + 2 + k) + 1 := by simp; omega
+    have hflat : (l :: ls).flatten ++ t = l ++ (ls.flatten ++ t) := by simp
+    have hne : l.isEmpty = false := by
+      cases l with
+      | nil => exact absurd rfl hl.ne_nil
+      | cons _ _ => rfl
+    rw [hf, hflat]
+    simp only [findFirst, readline_line l _ d hl, hne, Bool.false_eq_true, if_false, hsl]
+    exact ih t d k (fun l' h' => h l' (by simp [h'])) ht hs
+
+/-- **C04, zero parts.**  A body none of whose lines `strip()`s to the boundary marker (for instance
+    just the close delimiter, with any preamble / epilogue free of marker lines) yields no parts. -/
+theorem C04_zero_parts (boundary : Bytes) (maxram : Nat) (body : Bytes)
+    (h : ∀ l ∈ (splitLF body).1, strip l ≠ bndOf boundary) (ht : strip (splitLF body).2 ≠ bndOf boundary) :
+    processMultipart boundary maxram body = .ok ([], ⟨[], true⟩) := by
+  unfold processMultipart
+  simp only
+  have hbnd : [DASH, DASH] ++ boundary = bndOf boundary := rfl
+  rw [hbnd]
+  obtain ⟨h1, h2, h3⟩ := splitLF_spec body
+  have hcount := splitLF_count_le body
+  have hf : body.length + 2 = (splitLF body).1.length + 2 + (body.length - (splitLF body).1.length) := by omega
+  have := findFirst_none (bndOf boundary) (splitLF body).1 (splitLF body).2 false
+    (body.length - (splitLF body).1.length) (fun l hl => ⟨h2 l hl, h l hl⟩) h3 ht
+  rw [← h1, ← hf] at this
+  rw [this]
+
+/-- non-vacuity: `--B--` CRLF alone is such a body -/
+example : processMultipart [66] 1000 [45, 45, 66, 45, 45, 13, 10] = .ok ([], ⟨[], true⟩) :=
+  C04_zero_parts [66] 1000 _ (by decide) (by decide)
+
 end CpProofs.C04
